@@ -528,6 +528,56 @@ func wellFormed(g gInfo) bool {
 	return true
 }
 
+// tieCause: for an info that is not wellFormed, is it one XEP-0115 5.4 does NOT declare
+// ill-formed and the property's quantifier includes?  Returns the level to rearrange and
+// the key of the known finding ("" = ill-formed or outside the quantifier).
+func tieCause(g gInfo) (bit int, key string) {
+	if !identitiesDistinct(g) {
+		return 0, ""
+	}
+	hasFT := func(f gForm) bool {
+		for _, fd := range f.fields {
+			if fd.vr == formType {
+				return true
+			}
+		}
+		return false
+	}
+	untyped := 0
+	ft := map[string]int{}
+	for _, f := range g.forms {
+		for _, fd := range f.fields {
+			if fd.vr == formType && len(fd.vals) > 1 {
+				return 0, "" // 5.4 3.5
+			}
+		}
+		if !hasFT(f) {
+			untyped++
+			continue
+		}
+		ft[f.formType()]++
+		if ft[f.formType()] > 1 {
+			return 0, "" // 5.4 3.5: two forms with the same FORM_TYPE
+		}
+	}
+	if untyped > 1 || (untyped == 1 && ft[""] > 0) {
+		return 4, "forms-without-form-type"
+	}
+	for _, f := range g.forms {
+		vs := map[string]bool{}
+		for _, fd := range f.fields {
+			if vs[fd.vr] && fd.vr != formType {
+				if fd.vr == "" {
+					return 8, "fields-without-var"
+				}
+				return 8, "fields-with-equal-var"
+			}
+			vs[fd.vr] = true
+		}
+	}
+	return 0, ""
+}
+
 // identitiesDistinct: Go's sort.Slice is not stable, so only these inputs have
 // a determined result.
 func identitiesDistinct(g gInfo) bool {
@@ -805,9 +855,11 @@ func (c *ctx) one(g gInfo, how string, class string) (result, []string) {
 	lines := []string{r.Prop + " " + line}
 	i, err := value(g, how)
 	var res result
+	var before gInfo
 	if err != nil {
 		res = result{err: err.Error()}
 	} else {
+		before = snap(i)
 		res = runHash(i, stdcrypto.SHA1)
 	}
 	r.Line(line, res.obs())
@@ -833,6 +885,9 @@ func (c *ctx) one(g gInfo, how string, class string) (result, []string) {
 		if n := g.size(); len(res.pre) != n {
 			r.Fail("equals-spec", "length", lines, fmt.Sprintf("%d bytes hashed, the items of the info and their separators have %d", len(res.pre), n))
 		}
+	}
+	if err == nil && res.panicked == "" && !strings.HasPrefix(class, "perm-") {
+		c.twice(g, how, i, before, lines, res)
 	}
 	return res, lines
 }
@@ -947,9 +1002,33 @@ func (c *ctx) info(g gInfo, class string, nperm int) {
 			r.Fail("equals-spec", "constructed-vs-decoded", append(lines, xl...), fmt.Sprintf("constructed value hashed %s, decoded value %s", clip(string(base.pre)), clip(string(x.pre))))
 		}
 	}
-	if base.panicked != "" || !wellFormed(g) {
-		if !wellFormed(g) {
-			r.Hist["not-well-formed"]++
+	if base.panicked != "" {
+		return
+	}
+	c.sent(g, base, lines)
+	if !wellFormed(g) {
+		r.Hist["not-well-formed"]++
+		// Equal sort keys.  Ill-formed per XEP-0115 5.4 (equal non-empty FORM_TYPEs, a
+		// FORM_TYPE with several values) or outside the property's quantifier (identities
+		// equal in category/type/lang): no order independence demanded.  Inside the quantifier
+		// and NOT ill-formed: forms without FORM_TYPE, fields sharing a var - there the code
+		// keeps the given order (theorems C20_forms_without_type_order_dependent,
+		// C20_equal_var_fields_order_dependent; known findings).  Only the level of the tie is
+		// rearranged, so that nothing else can hide behind the known key.
+		bit, key := tieCause(g)
+		if key == "" {
+			return
+		}
+		for k := 0; k < 3; k++ {
+			o := shuffled(r.Rnd, g, bit)
+			if o.enc() == g.enc() {
+				continue
+			}
+			res, ol := c.one(o, "ctor", "perm-ties")
+			if res.panicked == "" && !bytes.Equal(res.pre, base.pre) {
+				r.Fail("perm-invariant", key, append(lines, ol...), fmt.Sprintf("hashed %s, rearranged: %s%s", clip(string(base.pre)), clip(string(res.pre)), firstDiff(string(res.pre), string(base.pre))))
+				break
+			}
 		}
 		return
 	}
@@ -1137,9 +1216,17 @@ func Run(r *common.Run) error {
 			}
 			c.info(g, "replay", 8)
 			c.entryPoints(g, []byte("ab"))
+			c.concurrentOn(g, 400)
 		}
 		return nil
 	}
+
+	if r.Race() {
+		c.concurrent()
+		return nil
+	}
+	c.concurrent()
+	c.decoded()
 
 	// corpus: the two worked examples of XEP-0115 (§5.2, §5.3) with their published
 	// verification strings, then the minimal witnesses of past failures
